@@ -218,6 +218,8 @@ def default_models():
         from .arrays import _elem, _ite, _as_bool, broadcast_len, _snap
         if where is None:
             return I.binop('Div', a, b)
+        if isinstance(out, SArr) and out.dtype == 'int':
+            I.raise_('TypeError', "Cannot cast ufunc 'divide' output from dtype('float64') to dtype('int64') with casting rule 'same_kind'")
         a, b, out, where = _snap(a), _snap(b), _snap(out), _snap(where)
         n = broadcast_len(I, a, b)
         k = I.ctx.fresh('k', z3.IntSort())
@@ -464,10 +466,10 @@ def default_models():
     reg('numpy.zeros', lambda I, n, **kw: _full(I, n, Fraction(0)))
     reg('numpy.ones', lambda I, n, **kw: _full(I, n, Fraction(1)))
     reg('numpy.empty', lambda I, n, **kw: _full(I, n, Fraction(0)))
-    reg('numpy.zeros_like', lambda I, a, **kw: SArr(I.len_(a), lambda k: Fraction(0)))
+    reg('numpy.zeros_like', lambda I, a, dtype=None, **kw: SArr(I.len_(a), lambda k: Fraction(0), dtype=(getattr(a, 'dtype', None) if dtype is None else None)))
     reg('numpy.ones_like', lambda I, a, **kw: SArr(I.len_(a), lambda k: Fraction(1)))
     reg('numpy.full_like', lambda I, a, v, **kw: SArr(I.len_(a), lambda k: v))
-    reg('numpy.empty_like', lambda I, a, **kw: SArr(I.len_(a), lambda k: Fraction(0)))
+    reg('numpy.empty_like', lambda I, a, dtype=None, **kw: SArr(I.len_(a), lambda k: Fraction(0), dtype=(getattr(a, 'dtype', None) if dtype is None else None)))
     reg('numpy.min', lambda I, a, **kw: I.builtins['min'].fn(a))
     reg('numpy.max', lambda I, a, **kw: I.builtins['max'].fn(a))
     reg('numpy.sum', lambda I, a, **kw: array_sum(I, a) if isinstance(a, SArr) else I.builtins['sum'].fn(a))
